@@ -33,6 +33,34 @@ def c03_sweep(ctx, n):
             fails.append({"key": f"covariance:{cls}", "desc": f"get{field} not covariant under a common rigid motion",
                           "replay": {"class": cls, "field": field, "quat": Q.as_quat().tolist(), "t": t.tolist(),
                                      "max_abs_err": float(np.max(np.abs(f1 - exp))), "scale": sc, "source": repr(src.__dict__)[:600]}})
+    # nested compounds moved as a whole through the collection API (rotate about own centre / anchor, then move)
+    for i in range(max(6, n // 6)):
+        nps = np.random.default_rng(rng.randrange(2**31))
+        mlen = rng.choice([1, 2, 3])
+        def leaf():
+            return make(rng.choice(CLASSES), nps, path=mlen)
+        inner = magpy.Collection(leaf(), leaf(), position=nps.uniform(-2, 2, (mlen, 3)), orientation=R.random(mlen, rng=nps))
+        outer = magpy.Collection(leaf(), inner, position=nps.uniform(-1, 1, (mlen, 3)))
+        obs = far_points(nps, 4, lo=8, hi=12)
+        f0 = magpy.getB(outer, obs, squeeze=False)
+        Q, t = R.random(rng=nps), nps.uniform(-3, 3, 3)
+        moved = outer.copy()
+        use_anchor = rng.random() < 0.5
+        anchor = nps.uniform(-2, 2, 3) if use_anchor else None
+        pivot = np.tile(anchor, (mlen, 1)) if use_anchor else np.array(moved._position)
+        moved.rotate(Q, anchor=anchor).move(t)
+        ok = True
+        for m in range(mlen):
+            obs2 = Q.apply(obs - pivot[m]) + pivot[m] + t
+            f1 = magpy.getB(moved, obs2, squeeze=False)[0, m, 0]
+            exp = Q.apply(f0[0, m, 0])
+            if not _close(f1, exp, float(np.max(np.abs(exp))) + 1e-300, 1e-7):
+                ok = False
+        done += 1
+        per["nested"] = per.get("nested", 0) + 1
+        if not ok:
+            fails.append({"key": f"covariance:nested:{'anchor' if use_anchor else 'own-centre'}", "desc": "a nested collection moved as a whole (rotate + move) is not covariant",
+                          "replay": {"anchor": None if anchor is None else anchor.tolist(), "quat": Q.as_quat().tolist(), "t": t.tolist(), "path_length": mlen}})
     return fails, {"c03_cases": done, "c03_per_class": per}
 
 
@@ -281,4 +309,24 @@ def c06_sweep(ctx, n):
         if not ok:
             fails.append({"key": f"element:{type(srcs[0]).__name__}:{field}", "desc": f"element {bad} differs from the single static call / wrong shape {out.shape} vs {exp_shape}",
                           "replay": {"sources": [repr(s) for s in srcs], "field": field, "where": str(bad)}})
+    # batches below / above the scalar-vs-vectorised switches of the elliptic-integral routines (n = 9, 10, 14, 15, 40)
+    for nrows in (9, 10, 14, 15, 40):
+        nps = np.random.default_rng(rng.randrange(2**31))
+        for cls in ("Cylinder", "Circle", "CylinderSegment"):
+            s0 = make(cls, nps)
+            r0 = (s0.dimension[0] / 2) if cls == "Cylinder" else (s0.diameter / 2 if cls == "Circle" else s0.dimension[1])
+            ph = nps.uniform(0, 2 * np.pi, nrows)
+            rr = np.where(nps.random(nrows) < 0.5, r0, nps.uniform(0.2, 3, nrows) * r0)  # half of the rows exactly on r = r0
+            zz = nps.uniform(0.6, 3, nrows) * nps.choice([-1, 1], nrows) * (s0.dimension[1] if cls == "Cylinder" else (1.0 if cls == "Circle" else s0.dimension[2]))
+            obs = np.stack([rr * np.cos(ph), rr * np.sin(ph), zz], axis=1)
+            for field in "BH":
+                get = getattr(magpy, "get" + field)
+                batch = get(s0, obs)
+                single = np.array([get(s0, o) for o in obs])
+                done += 1
+                comp[f"batch{nrows}"] = comp.get(f"batch{nrows}", 0) + 1
+                both_nan = np.isnan(batch) & np.isnan(single)
+                if not np.all(both_nan | np.isclose(batch, single, rtol=1e-7, atol=1e-9 * field_scale(s0) * (1 if field == "B" else 1e6))):
+                    fails.append({"key": f"batch-dependence:{cls}:{field}", "desc": f"a row of a {nrows}-row call differs from the same observer evaluated alone",
+                                  "replay": {"class": cls, "rows": nrows, "field": field}})
     return fails, {"c06_cases": done, "c06_compositions": comp}
